@@ -1032,4 +1032,150 @@ theorem optimizeLoop_establish [LE Q] [DecidableLE Q] [LT S] [DecidableLT S] (hw
 
 end establish
 
+
+/-! ### `MappedSketch.update` / `positions` -/
+
+theorem mapM_option_spec {α β : Type} (f : α → Option β) : ∀ (l : List α) (r : List β), l.mapM f = some r →
+    r.length = l.length ∧ ∀ (k : Nat) (a : α), l[k]? = some a → ∃ b, r[k]? = some b ∧ f a = some b := by
+  intro l
+  induction l with
+  | nil => intro r h; simp at h; subst h; simp
+  | cons x xs ih =>
+      intro r h
+      simp only [List.mapM_cons, Option.bind_eq_bind, Option.pure_def, Option.bind_eq_some_iff] at h
+      obtain ⟨b, hb, bs, hbs, hr⟩ := h
+      cases hr
+      obtain ⟨h1, h2⟩ := ih bs hbs
+      refine ⟨by simp [h1], fun k a hk => ?_⟩
+      cases k with
+      | zero => simp at hk; subst hk; exact ⟨b, by simp, hb⟩
+      | succ k => simp at hk ⊢; exact h2 k a hk
+
+theorem mapM_option_isSome {α β : Type} (f : α → Option β) (l : List α) (h : ∀ a ∈ l, (f a).isSome) :
+    (l.mapM f).isSome := by
+  induction l with
+  | nil => simp
+  | cons x xs ih =>
+      have hx := h x (List.mem_cons_self ..)
+      have hxs := ih (fun a ha => h a (List.mem_cons_of_mem _ ha))
+      obtain ⟨b, hb⟩ := Option.isSome_iff_exists.mp hx
+      obtain ⟨bs, hbs⟩ := Option.isSome_iff_exists.mp hxs
+      simp [List.mapM_cons, hb, hbs]
+
+
+theorem flatten_mapM (g : Nat → Option P) : ∀ (quads : List (List Nat)) (faces : List (List P)),
+    quads.mapM (fun q => q.mapM g) = some faces →
+    faces.flatten.length = quads.flatten.length ∧
+    ∀ (k i : Nat), quads.flatten[k]? = some i → ∃ b, faces.flatten[k]? = some b ∧ g i = some b := by
+  intro quads
+  induction quads with
+  | nil => intro faces h; simp at h; subst h; simp
+  | cons q qs ih =>
+      intro faces h
+      simp only [List.mapM_cons, Option.bind_eq_bind, Option.pure_def, Option.bind_eq_some_iff] at h
+      obtain ⟨f, hf, fs, hfs, hr⟩ := h
+      cases hr
+      obtain ⟨l1, s1⟩ := mapM_option_spec g q f hf
+      obtain ⟨l2, s2⟩ := ih fs hfs
+      refine ⟨by simp [l1, l2], fun k i hk => ?_⟩
+      simp only [List.flatten_cons] at hk ⊢
+      by_cases hlt : k < q.length
+      · rw [List.getElem?_append_left hlt] at hk
+        rw [List.getElem?_append_left (by rw [l1]; exact hlt)]
+        exact s1 k i hk
+      · have hge : q.length ≤ k := Nat.le_of_not_lt hlt
+        rw [List.getElem?_append_right hge] at hk
+        rw [List.getElem?_append_right (by rw [l1]; exact hge), l1]
+        exact s2 _ i hk
+
+
+
+/-! ### quality from an arbitrary (not yet consistent) state -/
+
+section general
+variable {cfg : Cfg P Prm} {o : Oracles P Q} {n : Nat}
+
+/-- if the first `optimize_clamp` of a non-empty order does not raise, the grid quality before it is defined -/
+theorem solveAll_gq_defined [LE Q] [DecidableLE Q] (sch : IterSched Prm S) (order : List Nat) (k : Nat)
+    (st : St P Prm) (hne : order ≠ []) (hnr : (solveAll cfg o sch order k st).raised = none) :
+    (o.gq st.pts).isSome := by
+  cases order with
+  | nil => exact absurd rfl hne
+  | cons j js =>
+      unfold solveAll at hnr
+      dsimp only at hnr
+      cases hg : o.gq st.pts with
+      | some q => rfl
+      | none =>
+          exfalso
+          have hr : (optimizeClamp cfg o st j (sch.solve k j).1 (sch.solve k j).2).raised ≠ none := by
+            unfold optimizeClamp
+            split
+            · simp [hg]
+            · simp
+          cases hrz : (optimizeClamp cfg o st j (sch.solve k j).1 (sch.solve k j).2).raised with
+          | none => exact hr hrz
+          | some e => simp [hrz] at hnr
+
+
+theorem optimizeLoop_noworse_general [LinearOrder Q] [LT S] [DecidableLT S] (hwf : WF cfg n)
+    (conv : List (Q × Q) → Bool) (maxIter : Nat) (sched : Nat → IterSched Prm S)
+    (fuel : Nat) (hist : List (Q × Q)) (steps : List (List (Step Q))) (st : St P Prm)
+    (hlen : st.pts.length = n) (hplen : st.prm.length = cfg.clampIdx.length)
+    (hnr : (optimizeLoop cfg o conv maxIter sched fuel hist steps st).raised = none)
+    (hit : (optimizeLoop cfg o conv maxIter sched fuel hist steps st).hist ≠ hist) :
+    ∃ qn q1, o.gq (probeAll cfg o (sched hist.length) cfg.clampIdx.zipIdx st).1.pts = some qn ∧
+      o.gq (optimizeLoop cfg o conv maxIter sched fuel hist steps st).st.pts = some q1 ∧ q1 ≤ qn := by
+  by_cases hc : converged conv maxIter hist = true
+  · unfold optimizeLoop at hit; simp [hc] at hit
+  · cases fuel with
+    | zero => unfold optimizeLoop at hit; simp [hc] at hit
+    | succ fuel =>
+      unfold optimizeLoop at hnr hit ⊢
+      simp only [hc, Bool.false_eq_true, if_false] at hnr hit ⊢
+      cases hg : o.gq st.pts with
+      | none => simp [hg] at hit
+      | some q0 =>
+        cases hrz : (optimizeIteration cfg o (sched hist.length) st).raised with
+        | some e => simp [hg, hrz] at hit
+        | none =>
+          cases hg2 : o.gq (optimizeIteration cfg o (sched hist.length) st).st.pts with
+          | none => simp [hg, hrz, hg2] at hit
+          | some q1 =>
+            -- the iteration: probes, then the clamps
+            have h1 := fun h => probeAll_establish (o := o) hwf (sched hist.length) _ (zipIdx_clampIdx cfg)
+              (fun _ => False) st ⟨hlen, hplen, fun _ h => h.elim⟩ h
+            cases hpa : probeAll cfg o (sched hist.length) cfg.clampIdx.zipIdx st with
+            | mk st' r =>
+              obtain ⟨keys, e⟩ := r
+              rw [hpa] at h1
+              cases e with
+              | some e => simp [optimizeIteration, hpa] at hrz
+              | none =>
+                have hiter : optimizeIteration cfg o (sched hist.length) st =
+                    solveAll cfg o (sched hist.length) ((sortDesc keys).map (·.1)) 0 st' := by
+                  simp only [optimizeIteration, hpa]
+                have hrest : Rest cfg n st' := by
+                  have h2 := h1 rfl
+                  refine ⟨h2.1, h2.2.1, fun j idx p hj hp => h2.2.2 j (Or.inr ⟨idx, ?_⟩) idx p hj hp⟩
+                  exact List.mem_zipIdx_iff_getElem?.mpr hj
+                have hq : (o.gq st'.pts).isSome := by
+                  by_cases hord : (sortDesc keys).map (·.1) = []
+                  · rw [hiter, hord] at hg2
+                    simp only [solveAll] at hg2
+                    simp [hg2]
+                  · rw [hiter] at hrz
+                    exact solveAll_gq_defined _ _ 0 st' hord hrz
+                obtain ⟨qn, hqn⟩ := Option.isSome_iff_exists.mp hq
+                have hp := restLe_preserved hwf o qn
+                have h3 : RestLe cfg o n qn (optimizeIteration cfg o (sched hist.length) st).st := by
+                  rw [hiter]
+                  exact solveAll_rest hp _ _ 0 st' ⟨hrest, qn, hqn, le_refl _⟩
+                have h4 := optimizeLoop_rest hp conv maxIter sched fuel (hist ++ [(q0, q1)])
+                  (steps ++ [(optimizeIteration cfg o (sched hist.length) st).steps]) _ h3
+                obtain ⟨qf, hqf, hle⟩ := h4.2
+                exact ⟨qn, qf, hqn, hqf, hle⟩
+
+end general
+
 end CBV.C13
